@@ -222,8 +222,80 @@ def two_pass(I, h, smax=2, mmax=2):
     return "ok"
 
 
+
+# ------------------------------------------------------------------ L2.5: the glue between the scheduler and run_program
+def node_glue(I, h, N=2, NE=2):
+    """check_predicate's per-node closure: node ix is run with the program stored under ITS program address, the parents it
+    was given, the solution index of the call, and leaf = 'node ix has no outgoing edges' (an empty edge range, whatever its
+    edge_start); the pair (ix, result of run_program) is handed back unchanged.  Scheduler and run_program are uninterpreted."""
+    import h_graph
+    E = I.E
+    n = 1 + E.choose(N, "nodes")
+    ne = E.choose(NE + 1, "edges")
+    pred, ess, edges = h_graph.mk_pred(I, h, n, ne)
+    six = E.sym_int("six", "u16")
+    sset = Ptr(Cell(mk_set(h, [mk_solution(h, 1, 10, [], [])])), "arc")
+    calls, rp_calls = [], []
+
+    def inner(I_, callee, args, fr):
+        run = args[0]
+        for ix in range(n):
+            r = h.call("types", "node_edges", [h.ref(pred), Int(USZ, ix)])
+            if r.variant != "Some": continue
+            par = h.vec([Ptr(Cell(Agg(None, [Cell(h.stack([W(7000 + ix)])), Cell(h.memory([]))])), "arc")])
+            before = len(rp_calls)
+            out = I_.call_value(run, [Int("u16", ix), par])
+            calls.append((ix, par, len(r.cells[0].v) == 0, out, rp_calls[before:]))
+        return h.ok(Agg(None, [Cell(Int("u64", 0)), Cell(h.vec([]))]))
+
+    def run_prog(I_, callee, args, fr):
+        tok = Opaque("run_program_result", len(rp_calls))
+        rp_calls.append((args, tok))
+        return tok
+
+    def get_program(I_, callee, args, fr):
+        a = stdmodels.deref(args[1])
+        return Ptr(Cell(Agg("Program", [Cell(h.vec([a.cells[0].v.cells[0].v]))])), "arc")
+    I.overrides.append((re.compile(r"(^|::)check_predicate_inner::<"), inner))
+    I.overrides.append((re.compile(r"(^|::)run_program::<"), run_prog))
+    I.overrides.append((re.compile(r"GetProgram>::get_program"), get_program))
+    I.overrides.append((re.compile(r"as Clone>::clone$"), lambda I_, c, a, fr: (clone_val(stdmodels.deref(a[0])) if not isinstance(stdmodels.deref(a[0]), Ptr) else NotImplemented)))
+    cache = Cell(MapV("hash"))
+    ctx = Agg("Ctx", [Cell(h.enum("check", "solution::RunMode", "Outputs")), Cell(Ref(cache))])
+    cfg = Agg("CheckPredicateConfig", [Cell(False)])
+    r = h.call("check", "check_predicate", [h.ref(Agg("State", [])), sset, Ptr(Cell(pred), "arc"), Agg("GetProgram", []), six, h.ref(cfg), ctx])
+    if r.variant != "Ok": raise Violation("check_predicate does not return the scheduler's result", E.model_for())
+    for ix, par, is_leaf, out, rps in calls:
+        gx = dict(node=ix, leaf=is_leaf)
+        if len(rps) != 1: raise Violation(f"node {ix}: run_program called {len(rps)} times", E.model_for(), gx)
+        args, tok = rps[0]
+        if not (isinstance(out, Agg) and out.cells[0].v.concrete and out.cells[0].v.v == ix and out.cells[1].v is tok):
+            raise Violation(f"node {ix}: the closure does not hand back (ix, result of run_program)", E.model_for(), gx)
+        check(E, b_not(int_binop("Eq", args[2], six)), f"node {ix}: run with another solution index", gx)
+        prog = args[3]
+        while isinstance(prog, (Ptr, Ref)): prog = prog.cell.v
+        pb = prog.cells[0].v.cells[0].v
+        if not (pb.concrete and pb.v == ix): raise Violation(f"node {ix}: run with the program of another node", E.model_for(), gx)
+        pctx = args[4]
+        if stdmodels.deref(pctx.cells[0].v) is not stdmodels.deref(par) and not (
+                [c.v for c in stdmodels.deref(pctx.cells[0].v).cells] == [c.v for c in stdmodels.deref(par).cells]): raise Violation(f"node {ix}: not run with the parents it was given", E.model_for(), gx)
+        lf = pctx.cells[1].v
+        if isinstance(lf, bool):
+            if lf != is_leaf: raise Violation(f"node {ix} (edge range {'empty' if is_leaf else 'non-empty'}) is run with leaf = {lf}", E.model_for(), gx)
+        else:
+            check(E, b_not(b_eq(lf, is_leaf)), f"node {ix} (edge range {'empty' if is_leaf else 'non-empty'}) is run with the wrong leaf flag", gx)
+        if args[1].cell is not sset.cell: raise Violation(f"node {ix}: run with another solution set", E.model_for(), gx)
+    if not calls: return "malformed"
+    return "leaf+inner" if {c[2] for c in calls} == {True, False} else ("leaf" if calls[0][2] else "inner")
+
+
 CR = ["types", "asm", "vm", "check"]
 HARNESSES = {
+    "node_glue": dict(props=["C01"], crates=CR, fn=node_glue, params=dict(quick=dict(N=2, NE=2), thorough=dict(N=3, NE=3)),
+        witnesses=["leaf", "leaf+inner", "malformed"],
+        bound=dict(quick="1..2 nodes, 0..2 edges, every edge_start / edge target any u16, any solution index; scheduler (check_predicate_inner) and run_program uninterpreted",
+                   thorough="1..3 nodes, 0..3 edges"),
+        replay=dict(kind="check_glue")),
     "run_program": dict(props=["C01", "C06"], crates=CR, fn=run_program, params=dict(quick=dict(pmax=2, wmax=2), thorough=dict(pmax=3, wmax=2)),
         witnesses=["parent", "leaf-bool", "leaf-data", "err-vm", "err-limit"],
         bound=dict(quick="0..2 parents with stacks / memories of 0..2 symbolic words (or summing above 4096 / 10240), leaf or not, Vm::exec_ops uninterpreted (final stack [1] / [2] / [0] / two symbolic words, symbolic memory and gas, or an error)",
